@@ -265,8 +265,8 @@ static bool commutative(std::string const & op, std::vector<PTRef> const & args)
 
 static std::map<std::string, PTRef> * printed;
 
-static bool registerTerm(PTRef root) {
-    ArithLogic & L = env->logic;
+static bool registerTerm(PTRef root, ArithLogic * logic = nullptr) {
+    ArithLogic & L = logic ? *logic : env->logic;
     std::vector<PTRef> todo{root};
     std::set<uint32_t> seen;
     while (!todo.empty()) {
@@ -322,6 +322,69 @@ static bool hashconsCase(std::vector<uint32_t> const & words, bool count) {
         }
     }
     if (count && reconstructed && permuted) { stats.nontrivial++; if (stats.samples.size() < 3 && !calls.empty()) stats.sample(std::to_string(calls.size()) + " calls, last: " + str(calls.back().res)); }
+    return true;
+}
+
+// C28 in a fresh term store per case: pure arithmetic logics (their equality normalisation differs from the UF/array
+// logics), constants and variables created in a generated order (a constant may be older than every variable and its
+// negation younger), every commutative constructor applied to both argument orders
+static bool hashconsFresh(std::vector<uint32_t> const & words, bool count) {
+    Src s{words};
+    bool ints = s.below(2) == 0;
+    ArithLogic L(ints ? Logic_t::QF_LIA : Logic_t::QF_LRA);
+    std::map<std::string, PTRef> pr;
+    printed = &pr;
+    static const char * NUMS[] = {"0", "1", "2", "3", "5", "7", "12", "2147483648", "123456789012345678901"};
+    auto mkc = [&]() {
+        std::string n = NUMS[s.below(9)];
+        if (s.below(3) == 0) n = "-" + n;
+        if (!ints && s.below(4) == 0) n += "/3";
+        return ints ? L.mkIntConst(FastRational(n.c_str())) : L.mkRealConst(FastRational(n.c_str()));
+    };
+    std::vector<PTRef> vars, consts;
+    int n = 4 + s.below(5);
+    for (int i = 0; i < n; ++i) {
+        if (s.below(2) == 0) consts.push_back(mkc());
+        else { std::string nm = "v" + std::to_string(i); vars.push_back(ints ? L.mkIntVar(nm.c_str()) : L.mkRealVar(nm.c_str())); }
+    }
+    while (vars.size() < 2) { std::string nm = "w" + std::to_string(vars.size()); vars.push_back(ints ? L.mkIntVar(nm.c_str()) : L.mkRealVar(nm.c_str())); }
+    if (consts.empty()) consts.push_back(mkc());
+    auto lin = [&]() {
+        vec<PTRef> sum;
+        int k = 1 + s.below(3);
+        for (int i = 0; i < k; ++i) {
+            PTRef v = vars[s.below(vars.size())];
+            sum.push(s.below(2) == 0 ? v : L.mkTimes(consts[s.below(consts.size())], v));
+        }
+        if (s.below(2) == 0) sum.push(consts[s.below(consts.size())]);
+        return L.mkPlus(std::move(sum));
+    };
+    int ncalls = 2 + s.below(6);
+    bool any = false;
+    for (int c = 0; c < ncalls; ++c) {
+        PTRef a = lin(), b = lin();
+        PTRef r1, r2;
+        const char * op;
+        try {
+            switch (s.below(4)) {
+                case 0: case 1: op = "="; r1 = L.mkEq(a, b); r2 = L.mkEq(b, a); break;
+                case 2: op = "+"; r1 = L.mkPlus(a, b); r2 = L.mkPlus(b, a); break;
+                default: { op = "distinct"; vec<PTRef> x; x.push(a); x.push(b); vec<PTRef> y; y.push(b); y.push(a); r1 = L.mkDistinct(std::move(x)); r2 = L.mkDistinct(std::move(y)); break; }
+            }
+        } catch (...) { continue; }
+        if (count) stats.evaluations++;
+        any = true;
+        if (std::getenv("H_DEBUG")) std::printf("(%s a b): a = %s [%u], b = %s [%u] -> %s [%u] / %s [%u]\n", op, L.termToSMT2String(a).c_str(), a.x, L.termToSMT2String(b).c_str(), b.x, L.termToSMT2String(r1).c_str(), r1.x, L.termToSMT2String(r2).c_str(), r2.x);
+        if (r1 != r2) {
+            failure = std::string("fresh store: argument order of commutative (") + op + " a b) changes the identity: a = " + L.termToSMT2String(a) + ", b = " + L.termToSMT2String(b) + ": " + L.termToSMT2String(r1) + " vs " + L.termToSMT2String(r2);
+            return false;
+        }
+        if (!registerTerm(r1, &L)) return false;
+        // the same call once more
+        PTRef r3 = std::string(op) == "=" ? L.mkEq(a, b) : std::string(op) == "+" ? L.mkPlus(a, b) : r1;
+        if (r3 != r1) { failure = std::string("fresh store: same call twice gives different identities for (") + op + " ...)"; return false; }
+    }
+    if (count && any) { stats.nontrivial++; stats.classes["fresh-store"]++; }
     return true;
 }
 
@@ -419,7 +482,7 @@ int main(int argc, char ** argv) {
         std::string m; in >> m;
         std::vector<uint32_t> w; uint32_t x;
         while (in >> x) w.push_back(x);
-        bool ok = m == "rewrite" ? divmodRewrite(w, true) : m == "hc" ? hashconsCase(w, true) : checkCase(w, m == "round", true);
+        bool ok = m == "rewrite" ? divmodRewrite(w, true) : m == "hc" ? hashconsCase(w, true) : m == "hcfresh" ? hashconsFresh(w, true) : checkCase(w, m == "round", true);
         std::printf(ok ? "OK\n" : "FAIL %s\n", failure.c_str());
         return ok ? 0 : 1;
     }
@@ -435,6 +498,7 @@ int main(int argc, char ** argv) {
             auto w = *rc::gen::resize(100, rc::gen::container<std::vector<uint32_t>>(rc::gen::inRange<uint32_t>(0, 1000003)));
             if (w.size() < 12) w.resize(12, 5);
             if (!hashconsCase(w, true)) { std::ostringstream o; o << "hc"; for (auto x : w) o << " " << x; o << "\n"; writeFile(failPath, o.str()); RC_FAIL(failure); }
+            if (!hashconsFresh(w, true)) { std::ostringstream o; o << "hcfresh"; for (auto x : w) o << " " << x; o << "\n"; writeFile(failPath, o.str()); RC_FAIL(failure); }
         });
         stats.dump(statsPath);
         return okh ? 0 : 1;
